@@ -12,7 +12,7 @@ Discipline that keeps ground truth exact (DESIGN.md C20, BUILDING.md):
 import random
 from scen import connect, sub, pub, api, BARRIER, pad_for
 
-SETTLE_MS = 50
+SETTLE_MS = 80
 
 
 def snap():
@@ -190,12 +190,18 @@ def mixed(rng, sid, nscen):
     return out
 
 
-def drops(rng, sid, nscen):
-    """one scenario per drop reason in turn: queue full (offline / window-blocked subscriber), expired (configured or
-    publisher-given lifetime), oversize (subscriber's Maximum Packet Size), expired in flight"""
+INFLIGHT_EXPIRY_MS = 30000      # config default mqtt.inflight_expiry (the wire driver has no knob for it)
+
+
+def drops(rng, sid, nscen, inflight_wait=False):
+    """one scenario per drop reason in turn: queue full (offline / window-blocked subscriber / every copy in flight),
+    expired (configured or publisher-given lifetime), oversize (subscriber's Maximum Packet Size); with inflight_wait
+    only the family that waits until the unacknowledged front of a full queue has outlived inflight_expiry (30 s)"""
     out = []
     for i in range(nscen):
-        fam = ["full_offline", "full_window", "expired", "oversize", "expired_inflight"][i % 5]
+        fam = ["full_offline", "full_window", "expired", "oversize", "full_inflight"][i % 5]
+        if inflight_wait:
+            fam = "expired_inflight"
         cfg = {"mode": "overlap", "qq0": True}
         w = World(rng)
         sver = rng.choice([4, 5, 5])
@@ -276,7 +282,7 @@ def drops(rng, sid, nscen):
                     plen = 4
                 w.steps.append(pub(kp, "d/x", qos, w.tag(), pad=plen, fq=fq))
             w.snap()
-        else:   # expired_inflight: the front of a full queue is an unacknowledged copy whose lifetime is over
+        else:   # full_inflight / expired_inflight: the queue is full of unacknowledged copies (whose lifetime is over)
             m = rng.choice([1, 2])
             cfg["maxqueued"] = m
             cfg["msgexpiry"] = 1
@@ -293,7 +299,7 @@ def drops(rng, sid, nscen):
             for _ in range(m):
                 w.steps.append(pub(kp, "d/x", rng.choice([1, 2]), w.tag()))
             w.steps += [{"op": "ping", "k": ks}, {"op": "sleep", "ms": 80}, {"op": "ping", "k": ks}, {"op": "sleep", "ms": SETTLE_MS},
-                        {"op": "stats"}, {"op": "sleep", "ms": 1600}]
+                        {"op": "stats"}, {"op": "sleep", "ms": INFLIGHT_EXPIRY_MS + 700 if inflight_wait else 300}]
             for _ in range(rng.randrange(1, 3)):
                 w.steps.append(pub(kp, "d/x", rng.choice([1, 2]), w.tag()))
             w.steps += [{"op": "ping", "k": ks}, {"op": "sleep", "ms": 80}, {"op": "ping", "k": ks}, {"op": "sleep", "ms": SETTLE_MS},
